@@ -135,8 +135,10 @@ func mkcert(domain string) (tls.Certificate, *x509.CertPool) {
 
 // finFeature is a synthetic mandatory feature: one request/acknowledge
 // exchange, then Ready.
-func finFeature(fail error) xmpp.StreamFeature {
-	name := xml.Name{Space: "urn:verif:fin", Local: "fin"}
+func finFeature(fail error) xmpp.StreamFeature { return finFeatureNS("urn:verif:fin", fail) }
+
+func finFeatureNS(ns string, fail error) xmpp.StreamFeature {
+	name := xml.Name{Space: ns, Local: "fin"}
 	return xmpp.StreamFeature{
 		Name:       name,
 		Prohibited: xmpp.Ready,
